@@ -275,6 +275,10 @@ def run(ctx: Ctx):
     r_solver(ctx, model)
     r_dispatch(ctx, model)
     r_params(ctx, model)
+    from ..sites import no_memoisation
+    ctx.rule("H-fresh: no caching decorator on any function of pygaps.characterisation.")
+    no_memoisation(ctx, load(ctx.root), "C17", "H-fresh", ('pygaps.characterisation.',),
+                   "cached potentials / constants survive a change of the adsorbate or material parameters")
 
 
 META = {
